@@ -87,6 +87,33 @@ def fam_C10(tier, seed):
         else:
             b.con(outer, xs=[o_con(i), at[n3]()])
         ps.append(b.done())
+    # operands whose encoding is SEVERAL assertions / introduces auxiliary variables (contiguity, groups,
+    # N tasks in time intervals): the connective must combine the operands, not their individual assertions
+    multi = {
+        "contig": lambda b, a, c: o_con(b.con("TasksContiguous", tasks=[a, c])),
+        "ugroup": lambda b, a, c: o_con(b.con("UnorderedTaskGroup", tasks=[a, c], interval=[[0, 2]], length=[])),
+        "ogroup": lambda b, a, c: o_con(b.con("OrderedTaskGroup", tasks=[a, c], interval=[], length=[3], kind="lax")),
+        "nin": lambda b, a, c: o_con(b.con("ScheduleNTasksInTimeIntervals", tasks=[a, c], n=1, kind="exact", intervals=[[0, 2]])),
+        "nin2": lambda b, a, c: o_con(b.con("ScheduleNTasksInTimeIntervals", tasks=[a, c], n=2, kind="max", intervals=[[0, 1], [1, 3]])),
+    }
+    for mn, n2, cls in itertools.product(multi, ("startAt", "endBefore", "expr"), ("Not", "And", "Or", "Xor", "Implies", "IfThenElse")):
+        if cls == "Not" and n2 != "startAt":
+            continue
+        b = PB(H, tag=cls + "-multi")
+        a, c = _mk(b)
+        at = _atoms(b, a, c)
+        m = multi[mn](b, a, c)
+        if cls == "Not":
+            b.con("Not", x=m)
+        elif cls == "Xor":
+            b.con("Xor", x=m, y=at[n2]())
+        elif cls in ("And", "Or"):
+            b.con(cls, xs=[at[n2](), m])
+        elif cls == "Implies":
+            b.con("Implies", cond=cond["c1"](a, c), xs=[m])
+        else:
+            b.con("IfThenElse", cond=cond["c2"](a, c), xs=[m], ys=[at[n2]()])
+        ps.append(b.done())
     # a combination next to the same operand class asserted on its own elsewhere
     b = PB(H, tag="operand-not-leaked")
     a, c = _mk(b)
